@@ -34,8 +34,8 @@ class Pool:
 
     def buf_id(self, arr):
         """arr: ndarray (tracked through its ultimate base) or Quantity (tracked with its unit)"""
-        from common import u
-        if isinstance(arr, u.Quantity):
+        from common import u, Time
+        if isinstance(arr, (u.Quantity, Time)):
             k, b = id(arr), arr
         else:
             b = base_of(np.asarray(arr))
@@ -47,7 +47,9 @@ class Pool:
 
     @staticmethod
     def _hash_one(b):
-        from common import u
+        from common import u, Time
+        if isinstance(b, Time):
+            return _h(np.asarray(b.jd1).tobytes() + np.asarray(b.jd2).tobytes() + str((b.scale, b.format, b.shape)).encode())
         if isinstance(b, u.Quantity):
             v = np.asarray(b.value)
             return _h(np.ascontiguousarray(v).tobytes() + str((v.shape, v.dtype, str(b.unit), type(b).__name__)).encode())
@@ -235,6 +237,54 @@ def replay_behaviour(case, rnd, eid0):
     return events
 
 
+def more_arg_events(rnd, eid0):
+    """Public calls whose arguments are Quantities / Times / frequency arrays: every argument object is
+    registered before the call, so TLC sees its hash before and after (and the same objects are passed to
+    a second call, which must behave like the first)."""
+    from common import pb, u, Time
+    events = []
+    DM = pb.DM(0.02)
+    for kind in ("dp", "bb", "in", "rd"):
+        z = make_root({"kind": kind, "contig": True}, rnd)
+        calls = []
+        tq = (3.5 / z.sample_rate).to(rnd.choice([u.us, u.s, u.ms]))
+        calls.append(("snippet_frac" if kind in ("dp", "bb") else "snippet_int", [tq], lambda z=z, tq=tq: pb.snippet(z, tq, 5)))
+        tt = z.start_time + 4 * z.dt
+        calls.append(("snippet_int", [tt], lambda z=z, tt=tt: pb.snippet(z, tt, 5)))
+        sq = (np.array([1.5, -2.0])[: z.shape[1]] / z.sample_rate).to(u.us)
+        calls.append(("time_shift", [sq], lambda z=z, sq=sq: pb.time_shift(z, sq)))
+        for unit in (u.MHz, u.Hz, u.GHz):
+            f = (np.array([399.0, 400.0, 401.5]) * u.MHz).to(unit)
+            fr = (400.25 * u.MHz).to(unit)
+            calls.append(("api_call", [f, fr], lambda f=f, fr=fr: DM.time_delay(f, fr)))
+            calls.append(("api_call", [f, fr], lambda f=f, fr=fr, z=z: DM.sample_delay(f, fr, z.sample_rate)))
+        ref = 399.5 * u.MHz
+        calls.append(("incoherent_dd", [ref], lambda z=z, ref=ref: pb.incoherent_dedispersion(z, DM, ref_freq=ref)))
+        if kind in ("dp", "bb"):
+            calls.append(("coherent_dd", [ref], lambda z=z, ref=ref: pb.coherent_dedispersion(z, DM, ref_freq=ref)))
+        ts = z.start_time + np.arange(4) * z.dt
+        calls.append(("contains", [ts], lambda z=z, ts=ts: z.contains(ts)))
+        pieces = [z[:10], z[10:]]
+        calls.append(("concat_self", [], lambda pieces=pieces: pb.concatenate(pieces)))
+        for name, argobjs, call in calls:
+            P = Pool()
+            zb = P.buf_id(z.data)
+            P.sigs.append((z, zb))
+            for a in argobjs:
+                P.buf_id(a)
+            for rep in (0, 1):                       # the same argument objects, twice
+                pre, mpre = P.hashes(), P.metas()
+                try:
+                    call()
+                    raised = ""
+                except Exception as e:  # noqa
+                    raised = repr(e)[:200]
+                events.append({"id": eid0 + len(events), "ev": "call", "op": name, "argbuf": zb, "pre": pre,
+                               "post": P.hashes(), "mpre": mpre, "mpost": P.metas(), "raised": raised,
+                               "case": {"direct2": name, "kind": kind, "rep": rep}})
+    return events
+
+
 def arg_events(rnd, eid0):
     """Direct calls with array / Quantity arguments whose pre-hash is known (arguments are registered
     before the call)."""
@@ -308,6 +358,7 @@ def run(chk):
             part = rnd.sample(part, 1500)
         cases += part
     events = arg_events(rnd, 0)
+    events += more_arg_events(rnd, len(events))
     opcount = {}
     for c in cases:
         ev = replay_behaviour(c, rnd, len(events))
@@ -348,7 +399,9 @@ def replay(doc):
         print("re-run the traced test: %s (api %s)" % (c["test"], c["api"]))
         return 1
     rnd = random.Random(c["seed"])
-    if "direct" in c["case"]:
+    if "direct2" in c["case"]:
+        evs = [e for e in more_arg_events(rnd, 0) if e["case"] == c["case"]]
+    elif "direct" in c["case"]:
         evs = [e for e in arg_events(rnd, 0) if e["case"] == c["case"]]
     else:
         evs = replay_behaviour(c["case"], rnd, 0)
